@@ -400,8 +400,10 @@ class PathEnumerator:
     zero-iteration choice.
     """
 
-    def __init__(self, cfg: CFG, nonempty: Optional[Callable[[ast.For, Dict[str, Any]], bool]] = None, limit: int = 50000, follow_exc: bool = False):
+    def __init__(self, cfg: CFG, nonempty: Optional[Callable[[ast.For, Dict[str, Any]], bool]] = None, limit: int = 50000, follow_exc: bool = False,
+                 atoms: bool = False):
         self.cfg = cfg
+        self.atoms = atoms  # enumerate truth assignments of pure predicate atoms and keep them consistent along a path
         self.nonempty = nonempty or (lambda f, env: False)
         self.limit = limit
         self.follow_exc = follow_exc
@@ -432,6 +434,34 @@ class PathEnumerator:
                             env[nm] = UNKNOWN
             if node.kind == "test":
                 v = self._eval(node.ast, env)
+                if v is UNKNOWN and self.atoms:
+                    unknown = [a for a in _pure_atoms(node.ast) if ("@" + _akey(a)) not in env and self._eval(a, env) is UNKNOWN]
+                    seen_keys = []
+                    uniq = []
+                    for a in unknown:
+                        if _akey(a) not in seen_keys:
+                            seen_keys.append(_akey(a))
+                            uniq.append(a)
+                    if uniq and len(uniq) <= 6:
+                        for bits in range(2 ** len(uniq)):
+                            e2 = dict(env)
+                            for i, a in enumerate(uniq):
+                                e2["@" + _akey(a)] = bool(bits >> i & 1)
+                            v2 = self._eval(node.ast, e2)
+                            if v2 is UNKNOWN:
+                                outs = succ
+                            else:
+                                want = "T" if v2 else "F"
+                                outs = [(s, lab) for s, lab in succ if lab == want or lab == "exc"]
+                            ld = loops_done
+                            if node.note == "while":
+                                if n in ld:
+                                    outs = [(s, lab) for s, lab in outs if lab != "T"]
+                                else:
+                                    ld = ld | {n}
+                            for s, lab in outs:
+                                yield from self._walk(s, path, e2, ld)
+                        return
                 if v is not UNKNOWN:
                     want = "T" if v else "F"
                     succ = [(s, lab) for s, lab in succ if lab == want or lab == "exc"]
@@ -476,6 +506,16 @@ class PathEnumerator:
     # -- tiny abstract domain ------------------------------------------------
     def _transfer(self, st: ast.AST, env: Dict[str, Any]) -> Dict[str, Any]:
         env = dict(env)
+        if self.atoms:
+            killed = _assigned_in([st]) if isinstance(st, ast.stmt) else set()
+            if killed:
+                for k in [k for k in env if k.startswith("@")]:
+                    try:
+                        names = {n.id for n in ast.walk(ast.parse(k[1:], mode="eval")) if isinstance(n, ast.Name)}
+                    except SyntaxError:
+                        names = set()
+                    if names & killed:
+                        del env[k]
         if isinstance(st, ast.Assign):
             v = self._eval(st.value, env)
             for t in st.targets:
@@ -498,6 +538,10 @@ class PathEnumerator:
     def _eval(self, e: Optional[ast.AST], env: Dict[str, Any]) -> Any:
         if e is None:
             return UNKNOWN
+        if self.atoms and not isinstance(e, (ast.Constant, ast.BoolOp, ast.UnaryOp)):
+            k = "@" + _akey(e)
+            if k in env:
+                return env[k]
         if isinstance(e, ast.Constant):
             return e.value
         if isinstance(e, ast.Name):
@@ -600,3 +644,32 @@ def _const_everywhere(stmts: Sequence[ast.stmt], name: str, value: Any) -> bool:
                 if not (isinstance(tgt, ast.Name) and isinstance(val, ast.Constant) and val.value == value):
                     return False
     return True
+
+
+def _akey(e: ast.AST) -> str:
+    return ast.unparse(e)
+
+
+def _is_pure(e: ast.AST) -> bool:
+    """No call except isinstance/len/type/hasattr on plain names/attributes; no subscript stores, awaits, yields."""
+    for n in ast.walk(e):
+        if isinstance(n, ast.Call):
+            if not (isinstance(n.func, ast.Name) and n.func.id in ("isinstance", "len", "type", "hasattr", "callable")):
+                if not (isinstance(n.func, ast.Attribute) and n.func.attr in ("lower", "upper", "strip", "startswith", "endswith")):
+                    return False
+        if isinstance(n, (ast.Await, ast.Yield, ast.YieldFrom, ast.NamedExpr, ast.Lambda)):
+            return False
+    return True
+
+
+def _pure_atoms(test: ast.AST) -> List[ast.AST]:
+    if isinstance(test, ast.BoolOp):
+        out = []
+        for v in test.values:
+            out.extend(_pure_atoms(v))
+        return out
+    if isinstance(test, ast.UnaryOp) and isinstance(test.op, ast.Not):
+        return _pure_atoms(test.operand)
+    if isinstance(test, ast.Constant):
+        return []
+    return [test] if _is_pure(test) else []
